@@ -3,6 +3,7 @@ Model: coq/Model/Query.v (QuestionHistory, generate_service_query + bucketing, t
 Ties: (1) the real functions against the model on generated caches / histories; (2) wire-level oracle on the full stack."""
 import json
 
+from lib.fakemsg import FakeIncoming
 from lib import cachesim, common
 from lib.cachesim import rec, coq_rec
 from lib.common import cz, ctext, cbool, clist, copt
@@ -80,13 +81,14 @@ def observe(case):
     class Msg:
         pass
     for t, recs in case['cache']:
-        m = Msg()
-        m.now = t
-        objs = [cachesim.mk(dict(r, created=t)) for r in recs]
-        m.answers = lambda objs=objs: objs
+        m = FakeIncoming(answers=[cachesim.mk(dict(r, created=t)) for r in recs], now=t, flags=0x8400)
         rm.async_updates_from_response(m)
     for q, t, known in case['hist']:
         zc.question_history.add_question_at_time(cachesim.mk(q), t, {cachesim.mk(dict(r, created=t)) for r in known})
+
+    hist_before = vhist(zc.question_history)
+    outs_err = case.setdefault('_oracle_errors', [])
+    del outs_err[:]
 
     def vout(o):
         return [c03.vset([vq(q) for q in o.questions]),
@@ -95,15 +97,29 @@ def observe(case):
         name, server, qu = case['lookup']
         info = ServiceInfo(T1, name, server=server)
         out = info._generate_request_query(zc, case['now'], DNSQuestionType.QU if qu else DNSQuestionType.QM)
-        return [[vout(out)], vhist(zc.question_history)], [out]
+        after = vhist(zc.question_history)
+        if qu and valparse_canon(after) != valparse_canon(hist_before):
+            outs_err.append("a QU lookup question changed the question history")
+        return [[vout(out)], after], [out]
     qt = None if case['qtype'] is None else (DNSQuestionType.QU if case['qtype'] else DNSQuestionType.QM)
     # set iteration order is not part of the behaviour: hand the types over in list order by using a dict-backed ordered "set"
     outs = zb.generate_service_query(zc, case['now'], dict.fromkeys(case['types']), case['multicast'], qt)
-    return [c03.vset([vout(o) for o in outs]), vhist(zc.question_history)], outs
+    after = vhist(zc.question_history)
+    qu_now = (not case['multicast']) if case['qtype'] is None else case['qtype']
+    if qu_now and valparse_canon(after) != valparse_canon(hist_before):
+        outs_err.append("a QU browser question was recorded in the question history (a later QM question would be suppressed by it)")
+    return [c03.vset([vout(o) for o in outs]), after], outs
+
+
+def valparse_canon(v):
+    from lib import valparse
+    return valparse.canon(valparse.to_plain(v))
 
 
 def oracle(case, obs, outs):
     """the property on the implementation's own output"""
+    if case.get('_oracle_errors'):
+        return case['_oracle_errors'][0]
     now = case['now']
     cached = {}
     for t, recs in case['cache']:
@@ -197,12 +213,9 @@ def observe_resp(case):
         pass
     msgs = []
     for md in case['msgs']:
-        m = Msg()
-        m._questions = [cachesim.mk(q) for q in md['questions']]
-        m.now = md['now']
-        ans = [cachesim.mk(dict(r, created=md['now'])) for r in md['answers']]
-        m.answers = lambda ans=ans: ans
-        m.is_probe = lambda p=md['is_probe']: p
+        m = FakeIncoming(questions=[cachesim.mk(q) for q in md['questions']],
+                         answers=[cachesim.mk(dict(r, created=md['now'])) for r in md['answers']],
+                         now=md['now'], is_probe=md['is_probe'])
         msgs.append(m)
     QueryHandler(zc).async_response(msgs, case['ucast_source'])
     # oracle: QU questions are never recorded
@@ -288,6 +301,8 @@ def oracle_wire(n_ptr, gap, qtype_qu, res):
 
 def jsonable(x):
     from props.c05 import jsonable as j
+    if isinstance(x, dict):
+        x = {k: v for k, v in x.items() if not k.startswith('_')}
     return j(x)
 
 
